@@ -90,20 +90,68 @@ Theorem C11_texts_classified :
 Proof. exact texts_classified. Qed.
 Print Assumptions C11_texts_classified.
 
-(* a real child's verdict, hence its test's record, does not depend on the failures the parent had before the fork *)
-Theorem C11_child_verdict_independent : forall all_sep c1 c2 t, run_test all_sep c1 t = run_test all_sep c2 t.
-Proof. exact run_test_count. Qed.
+(* a real child's verdict, hence its test's record, does not depend on the failures the parent had before the fork -- for a
+   test as such and for a registered case (ignored or not, with or without the run-ignored switch) *)
+Theorem C11_child_verdict_independent :
+  (forall all_sep c1 c2 t, run_test all_sep c1 t = run_test all_sep c2 t) /\
+  (forall all_sep run_ign c1 c2 tc, run_case all_sep run_ign c1 tc = run_case all_sep run_ign c2 tc).
+Proof. exact verdict_independent. Qed.
 Print Assumptions C11_child_verdict_independent.
 
-(* the parent goes on: every test of the list is run and recorded exactly as it would be alone, the total is the sum,
-   and the run is reported failed exactly when some test has a failure *)
+(* the parent goes on: every test of the list is met and recorded exactly as it would be alone, the total is the sum, every
+   test is counted exactly once (as run or as ignored), and the run is reported failed exactly when some test has a failure *)
 Theorem C11_parent_continues : forall s,
-  o_items (run s) = map (run_test (s_all_sep s) 0) (s_tests s) /\
+  o_items (run s) = map (run_case (s_all_sep s) (s_run_ign s) 0) (s_tests s) /\
   length (o_items (run s)) = length (s_tests s) /\
   o_total (run s) = total_fails (o_items (run s)) /\
+  o_run (run s) + o_ign (run s) = N.of_nat (length (s_tests s)) /\
   (s_tests s <> [] -> (o_failed (run s) = true <-> exists it, In it (o_items (run s)) /\ i_fails it <> [])).
 Proof. exact parent_continues. Qed.
 Print Assumptions C11_parent_continues.
+
+(* under the run-ignored switch an IGNORE_TEST yields exactly the item of the same test not marked ignored (which is the
+   item of the test as such), and the oracle holds it to exactly the same account *)
+Theorem C11_run_ignored_as_normal : forall all_sep count t,
+  run_case all_sep true count {| c_ign := true; c_test := t |} = run_case all_sep true count {| c_ign := false; c_test := t |} /\
+  run_case all_sep true count {| c_ign := true; c_test := t |} = run_test all_sep count t /\
+  (forall it, case_item_ok all_sep true {| c_ign := true; c_test := t |} it = item_ok all_sep t it).
+Proof. exact run_ignored_as_normal. Qed.
+Print Assumptions C11_run_ignored_as_normal.
+
+(* ... and so for the whole run: with the switch the markers can be erased without changing the observation *)
+Theorem C11_run_ignored_whole_run : forall all_sep ts,
+  run {| s_all_sep := all_sep; s_run_ign := true; s_tests := ts |} =
+  run {| s_all_sep := all_sep; s_run_ign := true; s_tests := map unmark ts |}.
+Proof. exact run_ignored_whole_run. Qed.
+Print Assumptions C11_run_ignored_whole_run.
+
+(* without the switch an IGNORE_TEST contributes no failure, no wait call and no child (not started), whatever its program
+   (no validity hypothesis), and leaves the failure count handed to the later tests as it was *)
+Theorem C11_ignored_not_run : forall all_sep count t,
+  (let it := run_case all_sep false count {| c_ign := true; c_test := t |} in
+   i_started it = false /\ i_fails it = [] /\ i_calls it = 0%nat /\ i_conts it = 0%nat /\ i_lost it = false) /\
+  (forall tl, run_tests all_sep false count ({| c_ign := true; c_test := t |} :: tl) =
+              (skip_item :: fst (run_tests all_sep false count tl), snd (run_tests all_sep false count tl))).
+Proof. exact (fun all_sep count t => conj (ignored_not_run all_sep count t) (ignored_not_run_tests all_sep count t)). Qed.
+Print Assumptions C11_ignored_not_run.
+
+(* an ignored real child run under the switch goes through the very same wait loop on the very same event stream as any
+   real child, the loop never runs out of events; without the switch it has no failure *)
+Theorem C11_ignored_real_child_contained : forall all_sep count p inject, prog_ok p = true ->
+  run_case all_sep true count {| c_ign := true; c_test := TReal p inject |} =
+    item_of_loop true (parent_loop 0 (map conc (real_stream p inject))) /\
+  lr_end (parent_loop 0 (map conc (real_stream p inject))) <> EndStreamOut /\
+  (forall run_ign, run_ign = false ->
+     i_fails (run_case all_sep run_ign count {| c_ign := true; c_test := TReal p inject |}) = []).
+Proof. exact ignored_real_contained. Qed.
+Print Assumptions C11_ignored_real_child_contained.
+
+(* every valid case -- ignored or not, run or passed over -- is recorded as the property's oracle asks, whatever the
+   failure count before it *)
+Theorem C11_every_case_accounted : forall all_sep run_ign count tc, case_ok tc = true ->
+  case_item_ok all_sep run_ign tc (run_case all_sep run_ign count tc) = true.
+Proof. exact every_case_accounted. Qed.
+Print Assumptions C11_every_case_accounted.
 
 (* real children: whatever the program and the injected faults, the events handed to the loop are well-formed and the
    loop never runs out of them (it ends by reaping, by a wait error or by giving up) *)
